@@ -380,6 +380,10 @@ def design(ctx, b):
     props = ["Terminates", "Progress"]
     ctx.tlc("LineBatcher", constants=constants(b), invariants=INVS, properties=props, spec="Spec", workers=8, timeout=3000,
             label="LineBatcher %s" % b["name"])
+    # seen from every input position the bounded loop is a behaviour of the unbounded abstraction LineBatcherInd (any number of
+    # lines, any batch composition), whose invariant Apalache proves inductive (run())
+    ctx.tlc("LineBatcherRef", constants=constants(b), properties=["RefinesInd"], workers=4, timeout=3000, coverage=False, count=False,
+            label="LineBatcherRef %s (RefinesInd)" % b["name"])
 
 
 def sharpness(ctx):
@@ -389,6 +393,10 @@ def sharpness(ctx):
                 expect_violation=inv, label="LineBatcher variant %s" % variant, coverage=False)
     ctx.tlc("LineBatcher", constants=constants(small, variant="no_max1"), invariants=INVS, properties=["Progress"], spec="Spec",
             workers=4, timeout=900, expect_violation="Progress", label="LineBatcher variant no_max1", coverage=False)
+    # the refinement mapping is sharp: with a defective variant of the design module RefinesInd is violated
+    for variant in ("scatter_pos", "no_max1"):
+        ctx.tlc("LineBatcherRef", constants=constants(small, variant=variant), properties=["RefinesInd"], workers=4, timeout=900,
+                expect_violation="RefinesInd", label="LineBatcherRef variant %s (self-test)" % variant, coverage=False, count=False)
 
 
 def run(ctx):
@@ -409,6 +417,9 @@ def run(ctx):
                "(thorough: + random pattern sets), <= 16 classes; a class whose posterior is within 2 % of 1e-4 admits both outcomes")
     pad = _pad_of_engine(ctx)
     sharpness(ctx)
+    # unbounded part: any number of lines, any batch composition (Apalache, spec/LineBatcherInd.tla)
+    from .. import indproof
+    indproof.apalache_obligations(ctx, "LineBatcherInd", indproof.LB_RUNS)
     # sessions first: their processes are forked from a process in which no engine has been asked anything yet
     judge_sessions(ctx, bounds(ctx.tier)[0], sessions(ctx, bounds(ctx.tier)[0], ctx.tier == "quick"), pad)
     for b in bounds(ctx.tier):
